@@ -67,6 +67,12 @@ func vectors(metric string) (stored [][]float32, queries [][]float32) {
 		// "number of sub-vectors" and "length of a sub-vector" are different numbers
 		stored = [][]float32{{0, 0, 0, 0, 0, 0}, {1, 0, 2, 0, 0, 3}, {0, 2, 0, 5, 1, 0}, {3, 3, 1, 0, 0, 4}, {-1, 0, 0, 2, 6, 0}, {1, 0, 4, 0.5, 0, 0}}
 		queries = [][]float32{{0, 0, 0, 0, 0, 0}, {1, 1, 2, 0, 0, 3}, {-2, 0.5, 0, 1, 5, 0}, {3, 3, 1, 0, 0, 4}}
+	case "euclidean1", "dot1":
+		// huge but legal float32 magnitudes: squared differences and products overflow to an
+		// infinity (each vector has ONE huge component, so no Inf - Inf arises); a point at an
+		// infinite distance is still a stored point and must be returned when the limit allows
+		stored = [][]float32{{0, 0, 0, 0}, {1, 0, 0, 0}, {3e19, 0, 0, 0}, {-3e19, 1, 0, 0}, {0, 2, 0, 0}, {2e19, 0, 0, 0}}
+		queries = [][]float32{{0, 0, 0, 0}, {3e19, 0, 0, 0}, {1, 1, 0, 0}, {-1e19, 0, 0, 0}}
 	default: // euclidean, dot: small lattice, exact in float32
 		stored = [][]float32{{0, 0, 0, 0}, {1, 0, 0, 0}, {0, 2, 0, 0}, {3, 3, 0, 0}, {-1, 0, 0, 2}, {1, 0, 0, 0.5}}
 		queries = [][]float32{{0, 0, 0, 0}, {1, 1, 0, 0}, {-2, 0.5, 0, 1}, {3, 3, 0, 0}}
@@ -218,7 +224,7 @@ func master(cfg *harness.Config, rep *harness.Report) {
 		metric string
 		q      quant
 	}
-	combos := []combo{{"euclidean96", learned}, {"euclidean6", product}, {models.DistanceEuclidean, product}, {models.DistanceDot, product}, {models.DistanceCosine, product}, {models.DistanceEuclidean, none}, {models.DistanceHamming, none}, {models.DistanceJaccard, none}, {models.DistanceEuclidean, learned}, {models.DistanceCosine, none}, {models.DistanceDot, fixed}, {models.DistanceDot, none}, {models.DistanceHaversine, none}}
+	combos := []combo{{"euclidean96", learned}, {"euclidean6", product}, {models.DistanceEuclidean, product}, {models.DistanceDot, product}, {models.DistanceCosine, product}, {models.DistanceEuclidean, none}, {models.DistanceHamming, none}, {models.DistanceJaccard, none}, {models.DistanceEuclidean, learned}, {models.DistanceCosine, none}, {models.DistanceDot, fixed}, {models.DistanceDot, none}, {models.DistanceHaversine, none}, {"euclidean1", none}, {"dot1", none}}
 	depth := 3
 	if !cfg.Quick() {
 		depth = 4
@@ -233,6 +239,11 @@ func master(cfg *harness.Config, rep *harness.Report) {
 	var specs []seqx.Spec
 	for _, c := range combos {
 		for _, cs := range caches {
+			if strings.HasSuffix(c.metric, "n1") || strings.HasSuffix(c.metric, "t1") {
+				if cs.name == "disabled" || cs.name == "tiny" {
+					continue // the huge-magnitude families: warm and cold only
+				}
+			}
 			schema := models.IndexSchema{prop: {Type: models.IndexTypeVectorFlat, VectorFlat: &models.IndexVectorFlatParameters{VectorSize: dimOf(c.metric), DistanceMetric: strings.TrimRight(c.metric, "0123456789"), Quantizer: c.q.q}}}
 			cc := cfgT{Inst: sl.InstCfg{Backend: "bbolt", CacheSize: cs.size, ReopenEachOp: cs.reopen, Schema: schema, Proxy: true}, Metric: c.metric}
 			specs = append(specs, seqx.Spec{Name: fmt.Sprintf("%s/%s/%s", c.metric, c.q.name, cs.name), Cfg: cc, Alphabet: symbols(c.metric).Refs(), Depth: depth, Dedup: cs.dedup})
